@@ -36,6 +36,10 @@ RULE_DOC = {
     'R12': 'tail expression `E.iter().any(|v| C)` -> `for i in 0..E.len() { let v = &E[i]; if C { return true } } false`',
     'R13': '`for x in &mut E {` -> `for i in 0..E.len() { let x = &mut E[i];` (std: iter_mut visits the elements in index order)',
     'R17': '`let v: Vec<T> = E.iter().map(|&x| F).collect();` -> `let mut v = Vec::new(); for i in 0..E.len() { let x = E[i]; v.push(F); }`',
+    'R23': '`BUF.extend_from_slice(&E.to_le_bytes());` -> `put_le_u32(&mut BUF, E);` when E is `(.. as u32)`, else `put_le_u64(&mut BUF, E);` - helpers whose body is that statement; contract ASSUMED: BUF grows by le4(E) / le8(E) (uninterpreted little-endian encodings)',
+    'R24': '`uN::from_le_bytes(B[A..A+k].try_into().unwrap())` (k = 4 for u32, 8 for u64; the width is checked textually) -> `get_le_uN(B, A)`; contract ASSUMED: requires A + k <= len (so the slice bound becomes a proof obligation), returns unleK(B[A..A+k]); with the ASSUMED axiom unleK(leK(x)) == x, |leK(x)| == k',
+    'R25': '`&B[A..]` -> `suffix(B, A)` (requires A <= len; ensures the view is the subrange)',
+    'R26': '`io::Error::new(io::ErrorKind::InvalidData, "..")` -> `io_invalid_data()` (opaque io::Error; only Ok/Err is observed)',
     'R22': '`if let Some(&x) = E {` -> `if let Some(x__r) = E { let x = *x__r;` (definition of a reference pattern; Verus has no ref patterns)',
     'M3': '`fn f(mut self, ..)` -> `fn f(self, ..) { let mut self__ = self; ..` with `self` renamed to `self__` in the body (Verus has no `mut self` receivers; contracts still speak about `self`)',
     'R8t': 'tail `M.values().filter(|p| C).map(|q| E).min().unwrap_or_else(|| D)` -> `let mut m__: Option<T> = None; for (k__r, p) in M.iter() { if (C) { let q = p; m__ = opt_min(m__, E); } } match m__ { Some(x__) => x__, None => D }` (same fold as R8; unwrap_or_else spelled as a match)',
@@ -263,6 +267,28 @@ class Piece:
         self.text = text[:m.start()] + new + text[end + 1:]
         self._fired('R8', '%s of filtered/mapped map values -> loop + %s' % (names[3], fold))
         return self
+
+    def R23(self):
+        def rep(m):
+            e = m.group(2).strip()
+            return '%sput_le_%s(&mut %s, %s);' % (m.group(0)[:len(m.group(0)) - len(m.group(0).lstrip())], 'u32' if re.search(r'as u32\)$', e) else 'u64', m.group(1), e)
+        return self.resub('R23', r'[ \t]*(\w+)\.extend_from_slice\(&(.+?)\.to_le_bytes\(\)\);', rep)
+
+    def R24(self):
+        def rep(m):
+            ty, b, lo, hi = m.group(1), m.group(2), m.group(3).strip(), m.group(4).strip()
+            k = 4 if ty == 'u32' else 8
+            ok = (lo.isdigit() and hi.isdigit() and int(hi) - int(lo) == k) or hi == '%s + %d' % (lo, k)
+            if not ok:
+                raise LostAnchor('rule R24 in %s: slice %s..%s is not %d bytes wide' % (self.label, lo, hi, k))
+            return 'get_le_%s(%s, %s)' % (ty, b, lo)
+        return self.resub('R24', r'(u32|u64)::from_le_bytes\((\w+)\[([^\]]+?)\.\.([^\]]+?)\]\.try_into\(\)\.unwrap\(\)\)', rep)
+
+    def R25(self):
+        return self.resub('R25', r'&(\w+)\[(\w+)\.\.\]', r'suffix(\1, \2)')
+
+    def R26(self):
+        return self.resub('R26', r'io::Error::new\(\s*io::ErrorKind::InvalidData,\s*"[^"]*",?\s*\)', 'io_invalid_data()')
 
     def R22(self):
         return self.resub('R22', r'if let Some\(&(\w+)\) = ([^\n{]+?) \{', lambda m: 'if let Some(%s__r) = %s { let %s = *%s__r;' % (m.group(1), m.group(2), m.group(1), m.group(1)))
